@@ -277,3 +277,6 @@ func ZZ_C09_stream_pag_buffer_runs_over_pages() {
 	}
 	zzC09StreamOf(s)
 }
+
+// C10 (round 3): statistics after a REFUSED merge are those before it
+func ZZ_C10_refused_merge_leaves_statistics() { ZZ_C13_merge_mismatch_exact() }
